@@ -300,6 +300,9 @@ func (fr *Frame) resolveLocal(name string) (ssa.Value, bool) {
 		}
 		return nil // constants, parameters: available everywhere
 	}
+	// loop invariants are statements about the START of the header block: of the definitions in
+	// the header itself only the phis exist there
+	atHeaderStart := fr.evalPoint == nil && fr.curLoop != nil
 	var best ssa.Value
 	var bestB *ssa.BasicBlock
 	haveBest := false
@@ -310,6 +313,11 @@ func (fr *Frame) resolveLocal(name string) (ssa.Value, bool) {
 			}
 		}
 		cb := blockOf(c)
+		if atHeaderStart && cb == fr.curLoop.header {
+			if _, isPhi := c.(*ssa.Phi); !isPhi {
+				continue
+			}
+		}
 		ok := true
 		if cb != nil {
 			for _, p := range points {
@@ -1357,6 +1365,17 @@ func (ec *evalCtx) evalCall(x *ast.CallExpr) (Value, types.Type) {
 		}
 		a0 := vc.get(ec.old, allocKey, allocSort)
 		return Value{C: []Term{sAnd(sNot(sSel(a0, v.C[0])), sNot(sEq(v.C[0], "0")))}}, tBool
+	case "mem":
+		// mem(s, j): the element at ABSOLUTE index j of the array underlying slice s (s[i] is
+		// mem(s, off(s)+i)); quantifying over j keeps the solver's matching syntactic
+		v, t := arg(0)
+		j, _ := arg(1)
+		u, ok := t.Underlying().(*types.Slice)
+		if !ok {
+			ec.fail("mem(s, j) of a non-slice")
+		}
+		p := vc.elemPtr(v.C[0], j.C[0], u.Elem())
+		return vc.load(ec.cur, p, u.Elem()), u.Elem()
 	case "arr":
 		v, _ := arg(0)
 		return Value{C: []Term{v.C[0]}}, tUntypedInt
@@ -1776,7 +1795,11 @@ func (fr *Frame) loopFrameCheck(st *State, keys []string, kind, name string, pos
 		if fr.dry > 0 {
 			continue
 		}
-		vc.oblige(st, kind, name+":"+k, goal, pos, "modifies "+strings.Join(c.Modifies, ", "))
+		if dims >= 2 {
+			vc.obligeHinted(st, kind, name+":"+k, goal, sk[1:], pos, "modifies "+strings.Join(c.Modifies, ", "))
+		} else {
+			vc.oblige(st, kind, name+":"+k, goal, pos, "modifies "+strings.Join(c.Modifies, ", "))
+		}
 	}
 }
 
@@ -1906,7 +1929,12 @@ func (fr *Frame) frameObligations(c *Contract, exit *State, kind string) error {
 			vc.declare(a0, allocSort)
 			alts = append(alts, sNot(sSel(a0, sk[0])))
 		}
-		vc.oblige(exit, kind, k, sOr(alts...), fr.fn.Pos(), "modifies "+strings.Join(c.Modifies, ", "))
+		if dims >= 2 && fr.dry == 0 {
+			// element memory: the universal facts about copies and appends are instantiated at the cell asked about
+			vc.obligeHinted(exit, kind, k, sOr(alts...), sk[1:], fr.fn.Pos(), "modifies "+strings.Join(c.Modifies, ", "))
+		} else {
+			vc.oblige(exit, kind, k, sOr(alts...), fr.fn.Pos(), "modifies "+strings.Join(c.Modifies, ", "))
+		}
 	}
 	return nil
 }
